@@ -91,7 +91,13 @@ def build(parents):
 
 
 def observe(rs, ops):
-    return [rs.operator_states[o].value for o in ops], {k.value: v for k, v in rs.state_counts.items()}
+    """state vector and per-state counts; the two public views of an operator's state (runtime status and
+    Operator.state()) must agree - a disagreement is returned as the string 'views-differ'"""
+    a = [rs.operator_states[o].value for o in ops]
+    b = [o.state().value for o in ops]
+    if a != b:
+        return ["views-differ: runtime status %s, Operator.state() %s" % (a, b)], {}
+    return a, {k.value: v for k, v in rs.state_counts.items()}
 
 
 def apply_and_check(p, ops, parents, model, i, target, S):
